@@ -537,9 +537,19 @@ async fn spawn_pipeline_processes(
             }
         };
 
-        let spawn_result = command
+        let spawn_result = match command
             .execute_in_pipeline(pipeline_context, cmd_params)
-            .await?;
+            .await
+        {
+            Ok(spawn_result) => spawn_result,
+            // An error in a stage that runs in its own subshell ends that stage only; it must
+            // not abandon the commands that follow the pipeline in the parent shell.
+            Err(err) if !run_in_current_shell => {
+                let _ = shell.display_error(&mut params.stderr(shell), &err);
+                ExecutionResult::from(ExecutionExitCode::from(&err)).into()
+            }
+            Err(err) => return Err(err),
+        };
 
         // Update the process group ID if something was spawned.
         if let ExecutionSpawnResult::StartedProcess(child) = &spawn_result {
@@ -573,18 +583,29 @@ async fn wait_for_pipeline_processes_and_update_status(
     let mut stage_index = 0;
 
     while let Some(child) = process_spawn_results.pop_front() {
-        let wait_result = if !stopped_children.is_empty() {
-            child.poll().await?
-        } else {
-            child.wait().await?
-        };
-
         // Same test as in `spawn_pipeline_processes`: did this stage run in the current shell?
         let ran_in_current_shell = pipeline_len == 1
             || (stage_index == pipeline_len - 1
                 && shell.options().run_last_pipeline_cmd_in_current_shell
                 && !shell.options().enable_job_control);
         stage_index += 1;
+
+        let wait_result = if !stopped_children.is_empty() {
+            child.poll().await
+        } else {
+            child.wait().await
+        };
+
+        let wait_result = match wait_result {
+            Ok(wait_result) => wait_result,
+            // As above: a builtin that failed with an error in its own subshell fails that
+            // stage only.
+            Err(err) if !ran_in_current_shell => {
+                let _ = shell.display_error(&mut params.stderr(shell), &err);
+                ExecutionWaitResult::Completed(ExecutionExitCode::from(&err).into())
+            }
+            Err(err) => return Err(err),
+        };
 
         match wait_result {
             ExecutionWaitResult::Completed(mut current_result) => {
